@@ -38,6 +38,18 @@ package scen
 // place where lock-order faults between Close (the only writer of the
 // provider's shutdown guard) and a long-running caller operation show.
 //
+// The caller's keystore after the provider's Close. The provider calls the
+// keystore with its own context, which its Close ends: a call the keystore is
+// executing on its slow disk at that instant loses its caller half-way
+// (probe_close_keystore_call_inflight). The caller closes its keystore after
+// the census; that Close is a Close of a component of the property's list
+// ("keystores") after operations on it failed in flight, and is judged by
+// close-hang / close-panic (c14JudgeCallerKeystoreClose in c14_provider.go;
+// the same for the plain caller keystores of the other provider scenarios,
+// whose disks are not slow). A keystore that the provider owns is built on an
+// in-memory datastore the provider creates itself: its calls never wait for
+// the environment, so this state is reachable with a caller's keystore only.
+//
 // Replayability. The keystore serves one request at a time, in arrival order;
 // with its disk slow that order is visible. Requests therefore must not arrive
 // in the same step: the variant only uses the worker pools in which regions
@@ -70,7 +82,7 @@ func init() {
 		Real: []string{"provider.New / SweepingProvider.Close", "SweepingProvider.RefreshSchedule after keystore.ResettableKeystore.ResetCids (keystore scan, new regions scheduled, reprovide of everything)", "catch-up loop, provide/reprovide batches in flight", "keystore.ResettableKeystore (caller-supplied)"},
 		Stub: stub,
 		Faults: append([]string{"fault_rpc_error", "fault_gcp_error", "probe_close_provide_inflight", "probe_close_gcp_parked", "probe_close_offline", "probe_close_online", "probe_cfg_own_keystore", "probe_cfg_no_host",
-			"probe_rwpref_installed", "probe_cfg_initial_keys", "probe_cfg_settled", "probe_reset_refresh_started", "probe_refresh_asked_keystore", "probe_close_during_refresh", "probe_close_during_refresh_scan", "probe_close_during_refresh_scan_bootstrapped", "probe_close_aimed_at_refresh_scan", "probe_refresh_completed"}, c14CommonFaults...),
+			"probe_rwpref_installed", "probe_cfg_initial_keys", "probe_cfg_settled", "probe_reset_refresh_started", "probe_refresh_asked_keystore", "probe_close_during_refresh", "probe_close_during_refresh_scan", "probe_close_during_refresh_scan_bootstrapped", "probe_close_aimed_at_refresh_scan", "probe_refresh_completed", "probe_caller_keystore_closed", "probe_close_keystore_call_inflight"}, c14CommonFaults...),
 	})
 }
 
@@ -251,6 +263,11 @@ func (rv *c14ResetVariant) atClose(sp *provider.SweepingProvider) {
 	s := rv.s
 	if rv.asked || (rv.inRefresh() && len(rv.ksdsParked()) > 0) {
 		s.Count("probe_refresh_asked_keystore")
+	}
+	if len(rv.ksdsParked()) > 0 {
+		// the keystore is executing a call of the provider (or of the refresh)
+		// on its slow disk: the provider's Close ends the context of that call
+		s.Count("probe_close_keystore_call_inflight")
 	}
 	if !rv.inFlight() {
 		return
